@@ -42,6 +42,16 @@ func (v *View) Print(n int) error {
 	}
 	end := begin + n
 
+	// The window must not reach behind the last line. If it does, it's
+	// shifted to end with the last line.
+	if l := v.Lines.Len(); end > l {
+		end = l
+		begin = end - n
+		if begin < 0 {
+			begin = 0
+		}
+	}
+
 	for i := begin; i < end; i++ {
 		fmt.Print(v.Format(i))
 	}
